@@ -1,5 +1,5 @@
 """C13 - the configuration file saved next to the results reproduces the run (writer half: ProgramOptions::save(std::string))."""
-import sys, os
+import sys, os, re
 sys.path.insert(0, os.path.dirname(os.path.abspath(__file__)))
 from maps_common import *
 
@@ -12,41 +12,67 @@ SCEN = {0: 'defaults only', 1: 'every option on the command line, three bunch cu
         5: 'parent config file giving both the legacy and the current name of steps / RF voltage / synchrotron frequency with different values', 6: 'legacy names in the parent config file, current names on the command line'}
 
 class StreamRec:
-    """recorder of the output stream: tokens ('s', text) ('c', char) ('f32'|'f64', term, precision) ('i', term) ('nl',)"""
-    def __init__(self): self.tok = []; self.prec = None
+    """recorder of output streams: tokens ('s', text) ('f32'|'f64', term, precision in force in the stream that formatted it) ('i', term) ('nl',).
+    Every stream object has its own token list and precision; a std::ostringstream handed on with str() is spliced into the stream it is written to."""
+    MARK = b'\x01stream@%x\x01'
+    def __init__(self): self.streams = {}; self.main = None; self.setprec = {}
+    @property
+    def tok(self): return self.streams.setdefault(self.main, []) if self.main is not None else self.streams.setdefault(None, [])
+    @tok.setter
+    def tok(self, v): self.streams = {self.main: v} if self.main is not None else {None: v}; self.setprec = {}
+    @property
+    def prec(self): return None
+    @prec.setter
+    def prec(self, v):
+        if v is None: self.setprec = {}
     def install(self, ex):
         R = self
+        def toks(strm): return R.streams.setdefault(strm, [])
         def prec_of(ex, st, strm):
-            if R.prec is not None: return R.prec
+            if strm in R.setprec and R.setprec[strm] is not None: return R.setprec[strm]
             try:
                 vp = ex.load(st, strm, I64); off = sgn(ex.load(st, vp - 24, I64), 64); p = ex.load(st, strm + off + 8, I64)
                 return p if isinstance(p, int) and p > 0 else 6
             except Exception: return 6
         def ctor(ex, st, fr, a, ins):
-            vt = ex.malloc(st, 64); ex.store(st, vt + 8, I64, 248); ex.store(st, a[0], I64, vt + 32); return None      # libstdc++: basic_ios subobject of basic_ofstream at +248
+            vt = ex.malloc(st, 64); ex.store(st, vt + 8, I64, 248); ex.store(st, a[0], I64, vt + 32)      # libstdc++: basic_ios subobject of basic_ofstream at +248
+            if R.main is None: R.main = a[0]
+            toks(a[0]); return None
+        def ctor_oss(ex, st, fr, a, ins):
+            vt = ex.malloc(st, 64); ex.store(st, vt + 8, I64, 112); ex.store(st, a[0], I64, vt + 32)      # basic_ios subobject of basic_ostringstream at +112; precision field starts as 0 = default 6
+            ex.write_bytes(st, a[0] + 112, bytes(32)); R.streams[a[0]] = []; R.setprec.pop(a[0], None); return None
+        def oss_str(ex, st, fr, a, ins):
+            from symex import _str_init
+            _str_init(ex, st, a[0], R.MARK % a[1]); return None
+        def put_text(ex, st, strm, data):
+            # text that is the str() of another recorded stream: splice that stream's tokens (formatted with *its* precision)
+            m = re.fullmatch(rb'\x01stream@([0-9a-f]+)\x01', data)
+            if m: toks(strm).extend(R.streams.get(int(m.group(1), 16), [])); return
+            toks(strm).append(('s', data.decode(errors='replace')))
         def s_str(ex, st, fr, a, ins):
-            p = ex.load(st, a[1], I64); n = ex.load(st, a[1] + 8, I64); R.tok.append(('s', ex.read_bytes(st, p, n).decode(errors='replace'))); return a[0]
+            p = ex.load(st, a[1], I64); n = ex.load(st, a[1] + 8, I64); put_text(ex, st, a[0], ex.read_bytes(st, p, n)); return a[0]
         def s_cstr(ex, st, fr, a, ins):
             n = 0
             while ex.read_bytes(st, a[1] + n, 1) != b'\0': n += 1
-            R.tok.append(('s', ex.read_bytes(st, a[1], n).decode(errors='replace'))); return a[0]
-        def s_char(ex, st, fr, a, ins): R.tok.append(('s', chr(a[1] & 255) if isinstance(a[1], int) else '?')); return a[0]
+            put_text(ex, st, a[0], ex.read_bytes(st, a[1], n)); return a[0]
+        def s_char(ex, st, fr, a, ins): toks(a[0]).append(('s', chr(a[1] & 255) if isinstance(a[1], int) else '?')); return a[0]
         def s_f(bits):
-            def f(ex, st, fr, a, ins): R.tok.append(('f%d' % bits, a[1], prec_of(ex, st, a[0]))); return a[0]
+            def f(ex, st, fr, a, ins): toks(a[0]).append(('f%d' % bits, a[1], prec_of(ex, st, a[0]))); return a[0]
             return f
-        def s_i(ex, st, fr, a, ins): R.tok.append(('i', a[1])); return a[0]
+        def s_i(ex, st, fr, a, ins): toks(a[0]).append(('i', a[1])); return a[0]
         def s_manip(ex, st, fr, a, ins):
             nm = ex.addr2f.get(a[1]) or (ex.snap.addr2syms.get(a[1], ['?'])[0] if isinstance(a[1], int) else '?')
-            if 'endl' in nm: R.tok.append(('nl',))
+            if 'endl' in nm: toks(a[0]).append(('nl',))
             return a[0]
-        def s_setprec(ex, st, fr, a, ins): R.prec = a[1] if isinstance(a[1], int) else None; return a[0]
-        def ios_prec(ex, st, fr, a, ins): R.prec = a[1]; return 6
+        def s_setprec(ex, st, fr, a, ins): R.setprec[a[0]] = a[1] if isinstance(a[1], int) else None; return a[0]
         T = {'_ZNSt14basic_ofstreamIcSt11char_traitsIcEEC1EPKcSt13_Ios_Openmode': ctor, '_ZNSt14basic_ofstreamIcSt11char_traitsIcEED1Ev': ext_noop,
+             '_ZNSt7__cxx1119basic_ostringstreamIcSt11char_traitsIcESaIcEEC1Ev': ctor_oss, '_ZNSt7__cxx1119basic_ostringstreamIcSt11char_traitsIcESaIcEED1Ev': ext_noop,
+             '_ZNKSt7__cxx1119basic_ostringstreamIcSt11char_traitsIcESaIcEE3strEv': oss_str,
              '_ZStlsIcSt11char_traitsIcESaIcEERSt13basic_ostreamIT_T0_ES7_RKNSt7__cxx1112basic_stringIS4_S5_T1_EE': s_str, '_ZStlsISt11char_traitsIcEERSt13basic_ostreamIcT_ES5_PKc': s_cstr,
              '_ZStlsISt11char_traitsIcEERSt13basic_ostreamIcT_ES5_c': s_char, '_ZNSolsEf': s_f(32), '_ZNSolsEd': s_f(64), '_ZNSolsEi': s_i, '_ZNSolsEj': s_i, '_ZNSolsEl': s_i, '_ZNSolsEm': s_i, '_ZNSolsEb': s_i,
              '_ZNSolsEPFRSoS_E': s_manip, '_ZStlsIcSt11char_traitsIcEERSt13basic_ostreamIT_T0_ES6_St13_Setprecision': s_setprec, '_ZNSo9_M_insertIdEERSoT_': s_f(64), '_ZNSo9_M_insertImEERSoT_': s_i, '_ZNSo9_M_insertIlEERSoT_': s_i,
-             '_ZNSo9_M_insertIbEERSoT_': s_i, '_ZSt16__ostream_insertIcSt11char_traitsIcEERSt13basic_ostreamIT_T0_ES6_PKS3_l': lambda ex, st, fr, a, ins: (R.tok.append(('s', ex.read_bytes(st, a[1], a[2]).decode(errors='replace'))), a[0])[1],
-             '_ZNSo3putEc': s_char, '_ZNSo5flushEv': lambda ex, st, fr, a, ins: a[0], '_ZSt4endlIcSt11char_traitsIcEERSt13basic_ostreamIT_T0_ES6_': lambda ex, st, fr, a, ins: (R.tok.append(('nl',)), a[0])[1]}
+             '_ZNSo9_M_insertIbEERSoT_': s_i, '_ZSt16__ostream_insertIcSt11char_traitsIcEERSt13basic_ostreamIT_T0_ES6_PKS3_l': lambda ex, st, fr, a, ins: (put_text(ex, st, a[0], ex.read_bytes(st, a[1], a[2])), a[0])[1],
+             '_ZNSo3putEc': s_char, '_ZNSo5flushEv': lambda ex, st, fr, a, ins: a[0], '_ZSt4endlIcSt11char_traitsIcEERSt13basic_ostreamIT_T0_ES6_': lambda ex, st, fr, a, ins: (toks(a[0]).append(('nl',)), a[0])[1]}
         ex.ext.update(T)
         def version_string(ex, st, fr, a, ins):
             sret = a[0]; data = b'verif'; ex.store(st, sret, I64, sret + 16); ex.store(st, sret + 8, I64, len(data)); ex.write_bytes(st, sret + 16, data + b'\0'); return None
@@ -55,6 +81,11 @@ class StreamRec:
         out = []; cur = []
         for t in self.tok:
             if t[0] == 'nl': out.append(cur); cur = []
+            elif t[0] == 's' and '\n' in t[1]:
+                parts = t[1].split('\n')
+                for k, part in enumerate(parts):
+                    if part: cur.append(('s', part))
+                    if k < len(parts) - 1: out.append(cur); cur = []
             else: cur.append(t)
         if cur: out.append(cur)
         return out
@@ -168,6 +199,9 @@ def job_save(res, sc):
         if IB:
             lines = L.get('BunchCurrent', []); vals = [t for ln in lines for t in ln if t[0] in ('f32', 'f64')]
             okc = len(vals) == len(IB)
+            dig = all(v[0].startswith('f') and v[2] >= 9 for v in vals)
+            res.obs.append(Ob('scenario %d: every bunch current is written with enough digits to survive the decimal round trip (float needs 9, stream precisions %s)' % (sc, [v[2] for v in vals]), 'holds' if dig else 'violated', key='save-precision',
+                              cex=None if dig else {'replay': 'save', 'scenario': sc, 'key': 'BunchCurrent'}))
             prove(res, 'scenario %d, %s: the %d bunch currents are saved, one "BunchCurrent=" line each, in order' % (sc, case, len(IB)), s1.pc,
                   z3.Or(z3.BoolVal(not okc), *[(v[1] if not isinstance(v[1], Fraction) else z3.RealVal(str(v[1]))) != w for v, w in zip(vals, IB)]), key='save-bunchcurrents', cex_fn=lambda m: {'replay': 'save', 'scenario': sc, 'key': 'BunchCurrent', 'lines': len(lines)})
         for a in alias:
